@@ -148,11 +148,11 @@ def do_op(F, op, designs, frs, ns, env):
 
 def cases(tier):
     K = 4
-    fsel = [0, 1] if tier == "quick" else [0, 1, 2, 3, 4]
+    fsel = [0, 1] if tier == "quick" else [0, 1, 3, 4]
     out = []
     for mode in ([0, 1] if tier == "quick" else [0, 1, 2]):
         for first in (fsel + [4] if tier == "quick" else fsel):  # the first operation builds a design (otherwise nothing can leak)
-            for fr in (0, 2) if tier == "quick" else (0, 1, 2):
+            for fr in (0, 2):
                 for second in range(12 if tier == "quick" else 40):  # index of the second operation (parallelism)
                     out.append((K, mode, first, fr, tuple(fsel), second))
     return out
